@@ -5,7 +5,7 @@ Rules on the tracer <-> pullback protocol and on the sweep/driver structure
 import ast
 import os
 from .core import Finding, RuleResult
-from .model import AnalysisError, dotted_name, norm, walk_no_nested
+from .model import AnalysisError, dotted_name, norm, walk_no_nested, seq_iteration
 from . import tracer_proto as tp
 from .defassign import check_function
 from .effects import flat
@@ -443,7 +443,8 @@ def rule_pb_pair(ctx):
                                 'the kernel\'s out derives from pb_NAME\'s `out`')
     eff = ctx.effects
     m = ctx.model
-    for name, pb in sorted(pb_wrappers(ctx).items()):
+    tab = pb_wrappers(ctx)
+    for name, pb in sorted(tab.items()):
         fi = pb.fi
         for c in walk_no_nested(fi.node):
             if not isinstance(c, ast.Call):
@@ -461,7 +462,11 @@ def rule_pb_pair(ctx):
             want = PAIR_ALIASES.get(name, name.strip('_'))
             probs = []
             if stem_k != want and stem_k != name:
-                probs.append(('kernel', 'pb_%s calls kernel %s (name disagreement)' % (name, kname)))
+                if stem_k not in tab and stem_k not in PAIR_ALIASES.values():
+                    # a helper shared between wrappers, not the kernel of another operation: no pairing to check
+                    r.note('pb_%s calls the shared helper %s (no pb_%s exists)' % (name, kname, stem_k))
+                    continue
+                probs.append(('kernel', 'pb_%s calls kernel %s, which belongs to pb_%s (name disagreement)' % (name, kname, stem_k)))
             kparams = k.value_params()
             kstems = [p[:-5] if p.endswith('_data') else p for p in kparams]
             for i, a in enumerate(c.args):
@@ -526,7 +531,8 @@ def rule_sweep_init(ctx):
                                                            'adjoints of the previous sweep are accumulated into', fi.file, fi.lineno))
     else:
         # the loop must cover the whole functionList and call unconditionally
-        if norm(init_st.iter) not in ('self.functionList', 'enumerate(self.functionList)'):
+        si = seq_iteration(init_st)
+        if si is None or si[0] != 'self.functionList':
             r.bad(Finding('R-sweep-init', _f(fi), 'init-iter:' + norm(init_st.iter),
                           'adjoint initialisation iterates `%s`, not the whole functionList' % norm(init_st.iter),
                           fi.file, init_st.lineno))
@@ -552,9 +558,12 @@ def rule_sweep_init(ctx):
         r.unknown(fi.site(), 'seeding loop over dependentFunctionList not found')
     if rev_i is not None:
         it = norm(rev_st.iter)
-        if it in ('enumerate(self.functionList[::-1])', 'self.functionList[::-1]', 'reversed(self.functionList)',
-                  'enumerate(reversed(self.functionList))'):
-            r.ok(construct='reverse-iter', sample='reverse loop iterates ' + it)
+        si = seq_iteration(rev_st)
+        calls = [c for c in _calls_in(rev_st, 'pullback')]
+        on_elem = si is not None and all(
+            (c.args and norm(c.args[0]) == si[2]) or (not c.args and norm(c.func.value) == si[2]) for c in calls)
+        if si is not None and si[0] == 'self.functionList' and si[1] == 'rev' and on_elem:
+            r.ok(construct='reverse-iter', sample='reverse loop iterates %s: every element of %s, in reverse, pullback applied to `%s`' % (it, si[0], si[2]))
         else:
             r.bad(Finding('R-sweep-init', _f(fi), 'reverse-iter:' + it,
                           'reverse loop iterates `%s`, not the whole functionList in reverse recording order' % it,
